@@ -47,6 +47,8 @@
     :table @{}
     :fn (fn [& args] nil)
     :sig :usr1
+    :unix :unix
+    :datagram :datagram
     s))
 
 (defn- log-text [lg]
@@ -74,7 +76,7 @@
   (def args (map (fn [s] (case s
                            :marker marker :newpath (string scratch "/newfile") :dir scratch
                            :hostname "/etc/hostname" :addr "127.0.0.1" :port "9" :cmd ["/bin/true"]
-                           :envname "VERIF_MARKER_ENV" :zero 0 :table @{} :sig :usr1 s)) specs))
+                           :envname "VERIF_MARKER_ENV" :zero 0 :table @{} :sig :usr1 :unix :unix s)) specs))
   (def r (try (do (f ;args) "ret") ([e] "err")))
   (when tc (ev/give tc r))
   r)
